@@ -15,7 +15,7 @@ META = {
     "level": "exploration",
     "technique": "reference-model monitor: abi::call instruction stream executed by an abstract machine with a scripted callee, judged by an independent signature/param/result model",
     "text": "For every function and every (variant, direction, async) the glue is executed on concrete values at pointer widths 4 and 8: core signature vs cabi-ref (not Resolve::wasm_signature), flat vs indirect parameters at the 16 / 4 limits, direct / return-area / task.return results at the 1 / 16 limits, exactly one call and one Return or AsyncTaskReturn, the caller-allocated parameter record freed exactly once with its size/align, values delivered unchanged, nothing executed after Return. Held = on the signatures and value sets run.",
-    "note": "Combinations with an explicit todo!()/unreachable!() in abi.rs are a fixed whitelist (coverage.whitelist_explicit); combinations whose async flag contradicts the variant and async-variant lowering through abi::call (used by no backend, no convention defined) are counted as unsupported-undefined, not alarmed. Exported-method self pointers are only run at pointer width 4 (wit-parser models the rep as a pointer).",
+    "note": "Combinations with an explicit todo!()/unreachable!() in abi.rs are a fixed whitelist (coverage.whitelist_explicit); combinations whose async flag contradicts the variant and async-variant lowering through abi::call (used by no backend, no convention defined) are counted as unsupported-undefined, not alarmed; this includes the non-explicit `assert_eq!(self.stack.len(), sig.params.len())` that (GuestImportAsync, lower, async) hits for a function with a result and <= 4 flat params (the return pointer is never pushed) - no backend reaches abi::call that way (async imports are lowered by hand with lower_flat / lower_to_memory). Exported-method self pointers are only run at pointer width 4 (wit-parser models the rep as a pointer).",
 }
 FLOORS = {"quick": (20000, 200), "thorough": (400000, 1500)}
 
